@@ -106,6 +106,12 @@ func c14Tail(s c14S, what int) []byte {
 			break
 		}
 	}
+	for i := 1; i < len(tail); i++ {
+		if tail[i] == '/' || tail[i] == '#' {
+			cls += "+comment-char-in-tail"
+			break
+		}
+	}
 	cls += "/" + string([]byte{s.end})
 	v.Observe("case", cls)
 	out := append([]byte{}, sep...)
